@@ -8,3 +8,4 @@ import JaxVerif.Properties.C07
 #print axioms JV.C07_result_passthrough
 #print axioms JV.C07_generated_good
 #print axioms JV.C07_same_signature
+#print axioms JV.C07_source_wrapper
